@@ -284,6 +284,26 @@ def run_files(spec, rec, lib):
         if i > 0 and pb == getattr(run_files, "_prev", None):
             viol(rec, "keyfiles/same-key-twice", "two generated keys are identical", case)
         run_files._prev = pb
+    # key files of the wrong length (written by other tools: trailing newline, seed||pub, hex text, truncated) are not keys
+    k = gkeys.key(5)
+    for label, pri, pub in (("trailing_newline", k.seed + b"\n", k.pub + b"\n"), ("seed_then_pub_64", k.seed + k.pub, k.pub),
+                            ("hex_text", k.seed.hex().encode(), k.pub.hex().encode()), ("truncated_31", k.seed[:31], k.pub[:31]),
+                            ("empty", b"", b""), ("pub_only_long", k.seed, k.pub + b"\x00")):
+        base = os.path.join(d, "wrong_" + label)
+        with open(base + ".pri", "wb") as fh:
+            fh.write(pri)
+        with open(base + ".pub", "wb") as fh:
+            fh.write(pub)
+        rec.case("files|wrong-length|" + label)
+        ob = boundary.call(lib, C.keyfiles_to_bytes, base)
+        if ob.accepted and tuple(ob.value) != (pri, pub):
+            viol(rec, "keyfiles/keyfiles_to_bytes-not-lossless", "%s: returned %d/%d bytes for files of %d/%d bytes"
+                 % (label, len(ob.value[0]), len(ob.value[1]), len(pri), len(pub)), {"kind": "files"})
+        ok = boundary.call(lib, C.keyfiles_to_keys, base)
+        if ok.accepted:
+            viol(rec, "keyfiles/wrong-length-key-file-accepted/" + label, "key files of %d/%d bytes loaded as keys" % (len(pri), len(pub)), {"kind": "files"})
+        elif ok.family not in ("TypeError", "ValueError"):
+            viol(rec, boundary.mechanism("undocumented-error", "keyfiles_to_keys", "TypeError|ValueError", ok), label, {"kind": "files"})
     g = boundary.call(lib, M.gen_keys)
     if g.accepted:
         priv, pub = g.value
